@@ -72,7 +72,7 @@ ELEMENTS = "src/sqlfluff/utils/reflow/elements.py"
 WS_TYPES = {"whitespace", "newline", "indent", "dedent"}
 WS_CLASSES = {"WhitespaceSegment", "NewlineSegment"}
 EDIT_BOOKKEEPING_KW = {"source_fixes", "source_str"}
-MAX_DEPTH = 9
+MAX_DEPTH = 18
 
 L = "rules/layout/"
 F = "utils/reflow/"
@@ -110,18 +110,6 @@ REVIEWED_DELETES: Dict[Tuple[str, str], tuple] = {
         ["for seg in elem_buff[loc.prev.adj_pt_idx].segments:", "for seg in elem_buff[loc.next.adj_pt_idx].segments:"],
         2,
     ),
-    (F + "respace.py::process_spacing", "LintFix.delete(seg)"): (
-        "WS",
-        "first site is guarded by seg.is_type('newline'); the second (duplicate-whitespace branch) deletes the last loop value of `for seg in segment_buffer`, and the only caller passes list(self.segments) of a ReflowPoint",
-        ["for seg in segment_buffer:", "strip_newlines and seg.is_type('newline')"],
-        1,
-    ),
-    (F + "respace.py::handle_respace__inline_with_space", "LintFix.delete(last_whitespace)"): (
-        "WS",
-        "last_whitespace is process_spacing()'s second result (only ever a segment that passed is_type('whitespace')); the only caller is ReflowPoint.respace_point under `if last_whitespace`",
-        ["last_whitespace: RawSegment"],
-        1,
-    ),
     (F + "sequence.py::ReflowSequence.without", "LintFix.delete(target)"): (
         "API",
         "public helper whose purpose is to remove a caller-chosen block; no caller in rules/layout or utils/reflow (checked below), used by non-layout rules only",
@@ -130,14 +118,8 @@ REVIEWED_DELETES: Dict[Tuple[str, str], tuple] = {
     ),
 }
 
-REVIEWED_EDITS: Dict[Tuple[str, str], tuple] = {
-    (F + "respace.py::handle_respace__inline_with_space", "last_whitespace.edit(desired_space)"): (
-        "WS",
-        "last_whitespace is process_spacing()'s second result (a segment that passed is_type('whitespace'))",
-        ["last_whitespace: RawSegment"],
-        1,
-    ),
-}
+# .edit(raw) sites that needed a review: none today (all three are proven mechanically)
+REVIEWED_EDITS: Dict[Tuple[str, str], tuple] = {}
 
 
 REVIEWED_POINTS: Dict[Tuple[str, str], tuple] = {
@@ -249,6 +231,23 @@ class Prover:
                 if all(self._ws_evidence(func, v, text, at) for v in atom.values):
                     return "WS", short(atom, 90)
         return verdict
+
+    def nonws(self, func, e: ast.AST, at, depth=0) -> Optional[str]:
+        """Positive evidence that ``e`` is *not* whitespace-like (tests on it or on what it aliases)."""
+        t = self.tested(func, e, at)
+        if t is not None:
+            return t[1] if t[0] == "NONWS" else None
+        if depth > 3 or not isinstance(func, FuncNode) or at is None:
+            return None
+        if isinstance(e, ast.Call) and call_name(e) in ("cast", "typing.cast") and len(e.args) == 2:
+            return self.nonws(func, e.args[1], at, depth + 1)
+        if isinstance(e, ast.Name):
+            ds = cfg_of(func).reaching().defs_at(at, e.id)
+            if len(ds) == 1:
+                d = next(iter(ds))
+                if d.kind == "assign" and not d.path and isinstance(d.value, (ast.Name, ast.Call)):
+                    return self.nonws(func, d.value, d.stmt, depth + 1)
+        return None
 
     def _ws_evidence(self, func, v: ast.AST, text: str, at) -> bool:
         if isinstance(v, ast.Call) and isinstance(v.func, ast.Attribute) and v.func.attr == "is_type" and norm(v.func.value) == text:
@@ -943,11 +942,11 @@ def run(chk) -> None:
                     chk.ok("R14a", construct_of(n), f"{short(n, 80)} [{r[:80]}]")
                     chk.sample({"rule": "R14a", "site": f"{m.relpath}:{n.lineno}", "edit": short(n, 60), "receiver_is_whitespace_because": r[:140]}, limit=8)
                     continue
-                t = pv.tested(func, recv, at) if func is not None else None
-                if t is not None and t[0] == "NONWS":
+                t = pv.nonws(func, recv, at) if func is not None else None
+                if t is not None:
                     chk.fail(
                         "R14a", n,
-                        f"{short(n, 60)} sets the text of a segment established as non-whitespace ({t[1]}): a layout fix would change token text",
+                        f"{short(n, 60)} sets the text of a segment established as non-whitespace ({t}): a layout fix would change token text",
                         detail=f"raw edit of non-whitespace: {short(n, 100)}",
                     )
                     continue
@@ -1049,4 +1048,104 @@ def run(chk) -> None:
 # ---------------------------------------------------------------------------
 from ..selftest import Variant  # noqa: E402
 
-VARIANTS: List[Variant] = []
+LT = "src/sqlfluff/rules/layout/"
+RF = "src/sqlfluff/utils/reflow/"
+
+VARIANTS: List[Variant] = [
+    Variant(
+        "lt10-inserts-a-comma-symbol", LT + "LT10.py",
+        "            edit_segments.append(NewlineSegment())\n",
+        "            edit_segments.append(SymbolSegment(\",\", type=\"comma\"))\n",
+        "R14a", "constructs SymbolSegment",
+    ),
+    Variant(
+        "reindent-newline-replaced-by-semicolon-text", RF + "reindent.py",
+        'replacement_segs.append(WhitespaceSegment(" "))',
+        'replacement_segs.append(WhitespaceSegment(";"))',
+        "R14a", "constant text of WhitespaceSegment",
+    ),
+    Variant(
+        "lt12-placeholder-gets-raw-text", LT + "LT12.py",
+        "[_template_segment.edit(source_fixes=[source_fix])],",
+        "[_template_segment.edit(\"\\n\", source_fixes=[source_fix])],",
+        "R14a", "raw edit of non-whitespace",
+    ),
+    Variant(
+        "lt12-sourcefix-writes-semicolon", LT + "LT12.py",
+        '            source_fix = SourceFix(\n                "\\n",',
+        '            source_fix = SourceFix(\n                ";\\n",',
+        "R14a", "constant text of SourceFix",
+    ),
+    Variant(
+        "sequence-point-swallows-any-segment", RF + "sequence.py",
+        '                seg.is_type("whitespace", "newline", "indent")\n                or (get_consumed_whitespace(seg) or "").isspace()\n',
+        '                seg.is_type("whitespace", "newline", "indent", "comment")\n                or (get_consumed_whitespace(seg) or "").isspace()\n',
+        "R14a", "point segments", "comments would become part of points, whose segments reflow deletes freely",
+    ),
+    Variant(
+        "lt06-deletes-whatever-stands-between", LT + "LT06.py",
+        '            if intermediate_segments.all(sp.is_type("whitespace", "newline")):',
+        "            if intermediate_segments:",
+        "R14b", "Rule_LT06._eval",
+    ),
+    Variant(
+        "lt10-modifier-deleted-but-not-reinserted", LT + "LT10.py",
+        "            WhitespaceSegment(),\n            select_clause_modifier,\n        ]",
+        "            WhitespaceSegment(),\n        ]",
+        "R14b", "LintFix.delete(select_clause_modifier)",
+    ),
+    Variant(
+        "lt09-deletes-next-sibling-unconditionally", LT + "LT09.py",
+        '                elif next_segment.is_type("whitespace"):',
+        "                else:",
+        "R14b", "LintFix.delete(next_segment)",
+    ),
+    Variant(
+        "rebreak-trailing-target-not-recreated", RF + "rebreak.py",
+        "                        LintFix.create_after(\n                            create_anchor,\n                            [loc.target],",
+        "                        LintFix.create_after(\n                            create_anchor,\n                            [NewlineSegment()],",
+        "R14b", "LintFix.delete(loc.target)",
+    ),
+    Variant(
+        "lt15-crawler-also-visits-comments", LT + "LT15.py",
+        'SegmentSeekerCrawler(types={"newline"}, provide_raw_stack=True)',
+        'SegmentSeekerCrawler(types={"newline", "comment"}, provide_raw_stack=True)',
+        "R14b", "Rule_LT15._eval",
+    ),
+    Variant(
+        "lt07-deletes-the-closing-bracket", LT + "LT07.py",
+        "                        LintFix.create_before(\n                            seg,\n                            [\n                                NewlineSegment(),\n                            ],\n                        )",
+        "                        LintFix.delete(seg)",
+        "R14b", "Rule_LT07._eval",
+    ),
+    Variant(
+        "respace-point-also-prunes-the-next-block", RF + "elements.py",
+        "            list(self.segments), strip_newlines\n",
+        "            list(self.segments) + list(next_block.segments if next_block else ()), strip_newlines\n",
+        "R14b", "process_spacing", "process_spacing deletes trailing/duplicate whitespace of whatever it is given; it must only be given a point's segments",
+    ),
+    Variant(
+        "reindent-comment-move-loses-the-comment", RF + "reindent.py",
+        "            [\n                comment_seg,\n                *new_point.segments,\n            ],",
+        "            [\n                *new_point.segments,\n            ],",
+        "R14b", "LintFix.delete(comment_seg)",
+    ),
+    Variant(
+        "lt09-reviewed-guard-removed", LT + "LT09.py",
+        '        if select_children[target_idx - 1].is_type("whitespace"):\n            initial_deletes.append(select_children[target_idx - 1])',
+        "        if target_idx:\n            initial_deletes.append(select_children[target_idx - 1])",
+        "R14b", "reviewed delete", "a reviewed site loses the test it was reviewed with",
+    ),
+    Variant(
+        "rebreak-second-unreviewed-delete-in-reviewed-function", RF + "rebreak.py",
+        "                    for seg in elem_buff[loc.next.adj_pt_idx].segments:\n                        fixes.append(LintFix.delete(seg))\n",
+        "                    for seg in elem_buff[loc.next.adj_pt_idx].segments:\n                        fixes.append(LintFix.delete(seg))\n                    for seg in elem_buff[loc.next.adj_pt_idx + 1].segments:\n                        fixes.append(LintFix.delete(seg))\n",
+        "R14b", "reviewed delete count",
+    ),
+    Variant(
+        "lt05-uses-without-to-drop-a-token", LT + "LT05.py",
+        "            .break_long_lines()\n",
+        "            .without(context.segment)\n            .break_long_lines()\n",
+        "R14b", "without()",
+    ),
+]
